@@ -68,11 +68,20 @@ func startSSC(r *mrand.Rand, s symref.Suite, mode int) []byte {
 			ssc[i] = 0xff
 		}
 		ssc[n-1] = 0xff - byte(r.IntN(6))
-	case 3: // low 8 bytes about to carry into the upper half (AES) / byte carry chain
-		for i := n - 4; i < n; i++ {
+	case 3: // a carry chain of c trailing FF bytes under a random upper part (c = 8: the low half of an AES counter carries into the upper half)
+		copy(ssc, randBytes(r, n))
+		chains := []int{8, 8, 8, 1, 2, 3, 4, 7, 9, 12, 15}
+		c := chains[r.IntN(len(chains))]
+		if c >= n {
+			c = n - 1
+		}
+		for i := n - c; i < n; i++ {
 			ssc[i] = 0xff
 		}
-		ssc[n-1] = 0xfc
+		ssc[n-1] = 0xff - byte(r.IntN(5))
+		if ssc[n-c-1] == 0xff {
+			ssc[n-c-1] = 0x2a
+		}
 	case 4: // leading zeros with random tail
 		copy(ssc[n/2:], randBytes(r, n-n/2))
 	}
